@@ -37,11 +37,11 @@ PLAN = {
     'C11': {'gated': ([('adapter', 3), 'distbind'], 72, 700), 'free': (['adapter'], 48, 800), 'model': [], 'crash': (40, 600)},
     'C12': {'gated': (['adapter'], 60, 625), 'free': (['adapter'], 48, 800), 'model': []},
     'C13': {'gated': (['dist', 'adapter', 'distbind'], 60, 625), 'free': (['dist'], 64, 1000), 'model': []},
-    'C14': {'gated': ([('life', 3), 'stop2'], 56, 450), 'free': (['life'], 48, 600), 'model': [], 'life_exhaustive': (3, 4)},
+    'C14': {'gated': ([('life', 3), 'stop2', 'cycles'], 60, 480), 'free': (['life'], 48, 600), 'model': [], 'life_exhaustive': (3, 4)},
     'C15': {'gated': (['multi', 'multim'], 80, 750), 'free': (['multi'], 32, 600), 'model': ['MC_multi']},
     'C16': {'gated': (['basic', 'handle', 'cancel', 'batch'], 64, 750), 'free': (['basic', 'handle'], 96, 2400), 'model': ['MC_core']},
     'C17': {'gated': (['basic', 'multi', 'cancel', 'ctl', 'reject', 'multim'], 84, 900), 'free': (['basic', 'multi'], 64, 1200), 'model': []},
-    'C18': {'gated': (['pool', 'ctl', ('tune', 2), 'stop2', ('life', 2)], 84, 900), 'free': (['pool'], 64, 1200), 'model': []},
+    'C18': {'gated': (['pool', 'ctl', ('tune', 2), 'stop2', ('life', 2), ('cycles', 2)], 90, 950), 'free': (['pool'], 64, 1200), 'model': []},
 }
 
 
@@ -245,7 +245,7 @@ def replay_prog(prog, choices):
 
 WINDOW_AFTER = {'PauseAndWait', 'Stop', 'WaitAndStop', 'Pause', 'WUF', 'Wait', 'Result', 'Close', 'Purge', 'BatchWait', 'BatchRead', 'TunePool',
                 'QClose', 'Drain', 'Restart', 'Resume'}
-RACE_FAMS = ['storm', 'stop2', 'tune', 'bind2', 'distbind', 'basic', 'ctl', 'cancel', 'batch', 'handle', 'pool', 'multi', 'dist', 'adapter', 'life', 'barrier']
+RACE_FAMS = ['cycles', 'storm', 'stop2', 'tune', 'bind2', 'distbind', 'basic', 'ctl', 'cancel', 'batch', 'handle', 'pool', 'multi', 'dist', 'adapter', 'life', 'barrier']
 
 
 def parse_races(output):
